@@ -53,6 +53,9 @@ pub struct Case {
     /// drive the copy through the `tuftool clone` binary (source served from disk) instead of the library
     #[serde(default)]
     pub via_cli: bool,
+    /// the two output directories already hold stale files under the names the copy will use
+    #[serde(default)]
+    pub stale: bool,
 }
 
 const NAMES: [&str; 8] = ["a.txt", "b.bin", "dir/c.txt", "deep/er/d.dat", "x/../resolved.txt", "dots..name", "tilde~1", "plus+sign"];
@@ -221,10 +224,40 @@ pub fn prop_with(case: &Case, known_flush: bool) -> Outcome {
     let targets_out = sb.join("cache").join("targets");
     std::fs::create_dir_all(sb.join("other")).unwrap();
     std::fs::write(sb.join("other").join("bystander"), b"bystander").unwrap();
-    let before = snapshot_tree(sb);
     // `tuftool clone` always caches the root chain and treats an empty name list as "all"
     let via_cli = case.via_cli && requested.as_ref().map_or(true, |v| !v.is_empty());
     let root_chain = case.root_chain || via_cli;
+    if case.stale {
+        // an earlier, outdated copy lies in the two directories: same names, other bytes (longer and shorter)
+        o.label("stale-copy-present");
+        std::fs::create_dir_all(&meta_out).unwrap();
+        std::fs::create_dir_all(&targets_out).unwrap();
+        let mut i = 0usize;
+        let mut stale_bytes = |orig: &[u8]| -> Vec<u8> {
+            i += 1;
+            let mut b = orig.to_vec();
+            if i % 2 == 0 && b.len() > 4 {
+                b.truncate(b.len() / 2);
+                b[0] ^= 0x20;
+            } else {
+                b.extend_from_slice(b"\n{\"stale\": \"left over from an earlier copy\"}\n");
+            }
+            b
+        };
+        for (f, b) in &src.built.meta {
+            let is_root = f.ends_with("root.json");
+            let versioned_root = is_root && f != "root.json";
+            if (!is_root) || (versioned_root && root_chain) {
+                std::fs::write(meta_out.join(f), stale_bytes(b)).unwrap();
+            }
+        }
+        for n in &wanted {
+            let pth = targets_out.join(file_of(n));
+            std::fs::create_dir_all(pth.parent().unwrap()).unwrap();
+            std::fs::write(&pth, stale_bytes(&src.all_targets[n])).unwrap();
+        }
+    }
+    let before = snapshot_tree(sb);
     let res: Result<(), String> = if via_cli {
         o.label("via:tuftool-clone");
         (|| -> Result<(), String> {
@@ -315,7 +348,7 @@ pub fn prop_with(case: &Case, known_flush: bool) -> Outcome {
     if let Some((v, bytes)) = &damaged {
         let rel = format!("cache/targets/{}", file_of(v));
         if let Some(b) = after.get(&rel) {
-            if b != &src.all_targets[v] {
+            if b != &src.all_targets[v] && before.get(&rel) != Some(b) {
                 o.fail(format!("the source served damaged content for {v:?}; the cache holds {} bytes of it under the target's final name ({} signed)", b.len(), src.all_targets[v].len()));
                 return o;
             }
@@ -451,8 +484,9 @@ pub fn prop_with(case: &Case, known_flush: bool) -> Outcome {
 }
 
 fn case_strategy() -> impl Strategy<Value = Case> {
-    (case_strategy_lib(), prop::bool::weighted(0.08)).prop_map(|(mut c, cli)| {
+    (case_strategy_lib(), prop::bool::weighted(0.08), prop::bool::weighted(0.3)).prop_map(|(mut c, cli, stale)| {
         c.via_cli = cli;
+        c.stale = stale;
         c
     })
 }
@@ -468,7 +502,7 @@ fn case_strategy_lib() -> impl Strategy<Value = Case> {
         any::<bool>(),
         prop_oneof![4 => Just(Bad::None), 1 => any::<u16>().prop_map(Bad::Corrupt), 1 => any::<u16>().prop_map(Bad::Oversize), 1 => any::<u16>().prop_map(Bad::Missing)],
     )
-        .prop_map(|(consistent, roots, rotate_online, targets, roles, subset, root_chain, bad)| Case { consistent, roots, rotate_online, targets, roles, subset, root_chain, bad, via_cli: false })
+        .prop_map(|(consistent, roots, rotate_online, targets, roles, subset, root_chain, bad)| Case { consistent, roots, rotate_online, targets, roles, subset, root_chain, bad, via_cli: false, stale: false })
 }
 
 pub fn check(ctx: &Ctx) -> Vec<PartReport> {
@@ -478,7 +512,7 @@ pub fn check(ctx: &Ctx) -> Vec<PartReport> {
         ctx,
         PartSpec {
             name: "caches",
-            rule: "random forged source repositories (root chain of 1..3 versions with or without online-key rotation, 0..5 top-level targets incl. sub-directories and resolvable names, 0..3 delegated roles with odd names such as 'with space', 'a/b', '../up', 'dot.json', '%2F', accented, 'q?#', optionally nested), served through the scripted transport; subset of targets in {all, a random subset, none, an unknown name}; with/without root chain; optionally one requested source target corrupted, oversized or missing. Oracle: files appear only inside the two directories; a damaged source target makes cache() fail and its bytes never appear under the target's final name; otherwise cache() succeeds, every root version 1..trusted is present and equal to the source when the chain was requested, the copy loads through FilesystemTransport immediately after cache() returned, with equal role versions and delegated roles, every requested target reads back byte-identical and nothing unrequested lies in the targets directory. Non-trivial: damaged source, root chain, subset other than all, or delegated roles; distinct = case",
+            rule: "random forged source repositories (root chain of 1..3 versions with or without online-key rotation, 0..5 top-level targets incl. sub-directories and resolvable names, 0..3 delegated roles with odd names such as 'with space', 'a/b', '../up', 'dot.json', '%2F', accented, 'q?#', optionally nested), served through the scripted transport; subset of targets in {all, a random subset, none, an unknown name}; with/without root chain; optionally one requested source target corrupted, oversized or missing; in 30 % of the cases the output directories already hold an outdated copy (same file names, longer or shorter other bytes). Oracle: files appear only inside the two directories; a damaged source target makes cache() fail and its bytes never appear under the target's final name; otherwise cache() succeeds, every root version 1..trusted is present and equal to the source when the chain was requested, the copy loads through FilesystemTransport immediately after cache() returned, with equal role versions and delegated roles, every requested target reads back byte-identical and nothing unrequested lies in the targets directory. Non-trivial: damaged source, root chain, subset other than all, or delegated roles; distinct = case",
             mode: Mode::Random { cases: n, strategy: Box::new(|| bx(case_strategy())) },
             prop: Box::new(move |c: &Case| prop_with(c, known)),
             require: vec![
@@ -489,6 +523,7 @@ pub fn check(ctx: &Ctx) -> Vec<PartReport> {
                 ("subset:some", n as u64 / 5),
                 ("unknown-target-refused", n as u64 / 40),
                 ("via:tuftool-clone", n as u64 / 30),
+                ("stale-copy-present", n as u64 / 6),
             ],
         },
     )]
